@@ -17,7 +17,7 @@ IMPORTANT environment facts:
   instead of the editable install of /repo. Check once with:
   cd {wt} && PYTHONPATH={wt} /venv/bin/python -c "import avocado_i2n; print(avocado_i2n.__file__)"   (must print a path under {wt})
 - The existing test suite is run like this (from {wt}):
-  cd {wt} && PYTHONPATH={wt} /venv/bin/python -m pytest -q -p no:cacheprovider --timeout=900 selftests/isolation/<file>.py
+  cd {wt} && PYTHONPATH={wt} /venv/bin/python -m pytest -q -p no:cacheprovider --timeout=900 --continue-on-collection-errors selftests/isolation/<file>.py
   The whole suite (selftests/isolation, 269 tests) takes about 25 minutes on one core; test_cartesian_graph.py is most of it.
   There is no network. Do not install anything.
 - One collection error for selftests.isolation.test_state_setup::MockDriver is pre-existing and expected.
